@@ -268,6 +268,8 @@ func (r *Decoder) parseRoot() error {
 						return fmt.Errorf("invalid lang: empty")
 					} else if objectMembers.Datatype != nil && len(objectMembers.Datatype.Content) == 0 {
 						return fmt.Errorf("invalid datatype: empty")
+					} else if objectMembers.Datatype != nil && objectMembers.Datatype.Content == "http://www.w3.org/1999/02/22-rdf-syntax-ns#dirLangString" {
+						return fmt.Errorf("unsupported datatype: %s", objectMembers.Datatype.Content) // base direction cannot be expressed
 					}
 
 					if objectMembers.Datatype != nil && rdf.IRI(objectMembers.Datatype.Content) != rdfiri.LangString_Datatype {
